@@ -136,6 +136,7 @@ def gen_plan(rng, index, tier):
     for _ in range(rng.randint(0, 3)):
         steps.insert(rng.randrange(len(steps) + 1), {"op": "factor", "T0": round(rng.uniform(lo, hi), 2), "Tc": rng.choice([None, None, round(rng.uniform(lo, hi), 2)])})
     cfg["path2"] = path2 + [path2_end]
+    cfg["sharedDict"] = rng.random() < 0.4
     cfg["linked"] = rng.random() < 0.6
     if cfg["linked"] and rng.random() < 0.5:
         # a hot (or cold) value assigned *through* the companion's link, keeping the link
@@ -212,6 +213,17 @@ def execute(plan):
         # a dimension linked to another component, declared the way blueprints do ("name.dim")
         companion = Circle("linked", "HT9", Tinput=25.0, Thot=25.0, od=1000.0, id=f"c.{d0}", mult=1)
         companion.resolveLinkedDims({"c": c})
+    # a second component of the same design that received its composition from the same dict (an
+    # enrichment-zoning loop does that); it stays at its temperature while the first one moves
+    twin = comp_dict = twin_nd0 = None
+    if nonzero and not fluidish and cfg.get("sharedDict"):
+        comp_dict = {k: float(v) for k, v in c.getNumberDensities().items()}
+        twin = build(cfg, "twin")
+        c.setNumberDensities(comp_dict)
+        twin.setNumberDensities(comp_dict)
+        comp_dict0 = dict(comp_dict)
+        twin_nd0 = {k: float(v) for k, v in twin.getNumberDensities().items()}
+        probes["composition_dict_shared_by_two_components"] = 1
     mph0 = mass_per_height(c) if nonzero else None
     cold = {d: float(c.getDimension(d, cold=True)) for d in te_dims}
     cold_area = float(c.getArea(cold=True))
@@ -247,6 +259,13 @@ def execute(plan):
                 mph = mass_per_height(c)
                 if not rel(mph, mph_ref[0], 1e-9):
                     fail("C03.mass", f"{tag}: mass per unit height at {T} C is {mph}, was {mph_ref[0]}", what="mass-per-height")
+        if twin is not None:
+            for nuc, v in twin_nd0.items():
+                if not rel(float(twin.getNumberDensities().get(nuc, 0.0)), v, 1e-12):
+                    fail("C03.density", f"{tag}: the number density of {nuc} in another component (same composition dict at construction, temperature untouched) changed from {v} to {float(twin.getNumberDensities().get(nuc, 0.0))}", what="other-component")
+                    break
+            if comp_dict != comp_dict0:
+                fail("C03.density", f"{tag}: the caller's composition dict was changed by armi", what="caller-dict")
         if companion is not None:
             got = float(companion.getDimension("id"))
             want = float(c.getDimension(te_dims[0]))
